@@ -192,6 +192,13 @@ def check(ctx):
     ctx.count("twin_pairs", n_tw)
     ctx.floor("twin_pairs", 5)
     check_loose(ctx, loose_for("C22"))
+    # ---------------- sequential scan: the carried prefix ("extra") blocks have the dtype of the scanned blocks
+    cr = mod.func("cumreduction")
+    fl = [t for t in ast.walk(cr) if isinstance(t, ast.Tuple) and len(t.elts) == 4 and unparse(t.elts[1]) == "np.full_like"]
+    ok = len(fl) == 1 and unparse(fl[0].elts[2]) == "(x._meta, ident, m.dtype)"
+    ctx.ob("ALG.scan.carry-dtype", cr, "the initial carry is np.full_like(x._meta, ident, m.dtype): the dtype of the scanned blocks, not of the input", ok, "" if ok else "the carry has the input dtype: with an explicit dtype every block after the first is promoted while the array declares the requested dtype")
+    ok = any(unparse(r.value) == "handle_out(out, result)" for r in returns(cr)) and bool(find("result = Array(graph, name, x.chunks, m.dtype, meta=x._meta)", cr))
+    ctx.ob("ALG.scan.declared-dtype", cr, "the result declares m.dtype and x.chunks", ok)
 
 
 VARIANTS = [
